@@ -38,7 +38,7 @@ RULE = ("a case = (obs sandboxed stream pipeline fine programs schedule): 2-3 re
         "use_context_bidirectional, <For>/<ForEnumerate> rows, <Transition>, Unsuspend, components using Owner::new / child / cleanup / with_cleanup directly, "
         "leaves using the request's SsrSharedContext directly (next_id, errors, incomplete chunks, with_hydration / with_no_hydration, axum ResponseOptions), "
         "<Router> with <FlatRoutes> / nested <Routes>+<ParentRoute>+<Outlet> / fallback whose route views report the request's route parameter, "
-        "every resource constructor (Resource / OnceResource / ArcResource / ArcOnceResource x blocking x string codec, AsyncDerived / ArcAsyncDerived, Arc->arena conversion) "
+        "every resource constructor (Resource / OnceResource / ArcResource / ArcOnceResource x blocking x string codec, AsyncDerived / ArcAsyncDerived, Arc->arena conversion, LocalResource / ArcLocalResource) "
         "read by .await / .get() under <Suspense> / by_ref / ready / map, spawn_local_scoped(_with_cancellation) tasks; "
         "or a SERVER-FUNCTION request handled by the shipped leptos_axum::handle_server_fns_with_context whose body reads context, allocates, registers a cleanup and awaits a gate. "
         "Pages are rendered concurrently like integrations/utils build_response + from_app "
@@ -206,10 +206,10 @@ class Gen:
             inner = self.view(d + 1, False, slots, False, insus) if kind == 1 else [TEXT]
             return [ROUTER, kind, p, child, inner]
         if k < 0.9:
-            kind, mode = rng.randrange(7), rng.randrange(5)
+            kind, mode = rng.randrange(9), rng.randrange(5)
             flags = rng.choice([0, 0, 1, 2, 3])
             p1, p2, p3 = self.probe(), self.probe(), self.probe()
-            if mode in (1, 4):
+            if mode in (1, 4) or kind >= 7:
                 child = self.view(d + 1, self.flat, slots, top, insus)
             else:
                 child = self.view(d + 1, self.flat, slots, not insus, insus)
@@ -407,8 +407,9 @@ def generate(rng, tier):
     if quick:
         pairs = [(0, 1, 1), (2, 3, 1), (4, 5, 1), (6, 7, 2), (8, 9, 2), (10, 11, 2), (1, 12, 2), (12, 9, 3)]
     else:
-        pairs = [(i, j, 1) for i in range(len(allsmall)) for j in range(i, len(allsmall))] + \
-            [(i, 12, 1) for i in range(len(allsmall))] + [(12, i, 1) for i in range(len(allsmall))]
+        nb = len(SMALL)
+        pairs = [(i, j, 1 if j < nb else 3) for i in range(len(allsmall)) for j in range(i, len(allsmall))] + \
+            [(i, 12, 3) for i in range(len(allsmall))] + [(12, i, 3) for i in range(len(allsmall))]
     allsmall = allsmall + [SMALL_SFN]
     k = 0
     for (i, j, stride) in pairs:
@@ -419,10 +420,11 @@ def generate(rng, tier):
         for sched in scheds[::stride]:
             k += 1
             if not quick:
-                for sb in ((1,) if sfn else (0, 1)):
-                    for ooo in range(4):
-                        for pipeline in ((0, 1, 3) if sb else (0,)):
-                            yield from both(sb, ooo, pipeline, [allsmall[i], allsmall[j]], sched, "exhaustive-pair")
+                # four of the 16 configurations (arenas x stream builder x pipeline) per schedule, rotating
+                for q in range(4):
+                    sb = 1 if sfn else (q & 1)
+                    ooo, pipeline = configs(sb, 4 * k + q + (k >> 2))
+                    yield from both(sb, ooo, pipeline, [allsmall[i], allsmall[j]], sched, "exhaustive-pair")
             else:
                 sb = 1 if sfn else (k >> 1) & 1
                 ooo, pipeline = configs(sb, k)
@@ -523,7 +525,7 @@ def wf_prog(p, slots=()):
     if op == ROUTER:
         return len(a) == 4 and ints(a[:2]) and a[0] < 3 and wf_prog(a[2], slots) and wf_prog(a[3], slots)
     if op == RES2:
-        return (len(a) == 8 and ints(a[:7]) and a[0] < 7 and a[1] < 4 and a[2] < 5 and a[3] < 8
+        return (len(a) == 8 and ints(a[:7]) and a[0] < 9 and a[1] < 4 and a[2] < 5 and a[3] < 8
                 and wf_prog(a[7], slots))
     if op == OWNERAPI:
         return len(a) == 4 and ints(a[:3]) and a[0] < 3 and a[2] < 8 and wf_prog(a[3], slots)
@@ -604,7 +606,7 @@ def dynl_ok(p, top=False, insus=False):
     if op == OWNERAPI:
         return dynl_ok(p[4], False, insus)
     if op == RES2:
-        return dynl_ok(p[8], top, insus) if p[3] in (1, 4) else dynl_ok(p[8], not insus, insus)
+        return dynl_ok(p[8], top, insus) if p[3] in (1, 4) or p[1] >= 7 else dynl_ok(p[8], not insus, insus)
     if op == SUSPEND:
         return dynl_ok(p[3], not insus, insus)
     if op == RESOURCE:
